@@ -214,6 +214,18 @@ def _handmade():
                                       occs_aminusb=am0)
             s1.extra = {k: v for k, v in (s1.extra or {}).items() if k != "mo_spin"}
             out.append(("wfn:segmented-aminusb", s1))
+            # beta-majority alpha-minus-beta occupations (Ms < 0): a conversion must keep which spin is which
+            s2 = copy.deepcopy(s1)
+            s2.mo = MolecularOrbitals("restricted", n0, n0, occ0.copy(), m0.coeffs[:, :n0].copy(), m0.energies[:n0].copy(), None,
+                                      occs_aminusb=-am0)
+            out.append(("wfn:segmented-aminusb-beta-majority", s2))
+            # orbitals without energies (natural orbitals): NaN entries are data, too
+            s3 = copy.deepcopy(s0)
+            e3 = s3.mo.energies.copy()
+            e3[-1] = np.nan
+            e3[0] = np.inf
+            s3.mo = MolecularOrbitals(s3.mo.kind, s3.mo.norba, s3.mo.norbb, s3.mo.occs.copy(), s3.mo.coeffs.copy(), e3, None)
+            out.append(("wfn:nan-energies", s3))
         except Exception as exc:  # pragma: no cover
             out.append(("handmade-error:" + repr(exc)[:80], None))
         mol = IOData(atnums=np.array([8, 1, 1]), atcoords=np.array([[0, 0, 0.0], [0, 1.5, 1.1], [0, -1.5, 1.1]]),
